@@ -99,6 +99,14 @@ func RunOne(t *testing.T, mk func() World, c *simrt.Choices, opt Options) (res R
 			res.Trace = s.Trace
 		})
 	}()
+	for i := range res.Violations {
+		v := &res.Violations[i]
+		// a hang inside lock acquisition is a C10 matter (a waiter must proceed once the holder
+		// releases or dies; a lock left by a dead process never blocks)
+		if v.Class == "hang" && (res.World == "wlock" || strings.Contains(v.Signature, "locking/workspace_locker.go")) {
+			v.Prop = "C10"
+		}
+	}
 	res.NChoices = c.Len()
 	res.WallUS = time.Since(start).Microseconds()
 	return res
